@@ -147,7 +147,7 @@ func genClientCase(t *rapid.T, hostile bool) *Case {
 				case 1:
 					op.Opts = append(op.Opts, KV{"ctx", VStr("cancel")}, KV{"ctxns", VI64(pick(t, delays, "cancelns"))})
 				}
-				op.Opts = append(op.Opts, KV{"cancelreply", VStr(pick(t, []string{"error", "error", "none", "result"}, "cancelreply"))})
+				op.Opts = append(op.Opts, KV{"cancelreply", VStr(pick(t, []string{"error", "error", "none", "result", "stream"}, "cancelreply"))})
 				if _, hasCtx := optGet(op.Opts, "ctx"); !hasCtx && pct(t, 30, "callprog") {
 					// a progressive call: the payload is fed in chunks through a callback
 					op.K = "callprog"
@@ -231,9 +231,17 @@ func genClientCase(t *rapid.T, hostile bool) *Case {
 					sub = pick(t, subs, "psub").ord
 				}
 				details := VDict(KV{"ppt_scheme", pick(t, []V{VStr("x_a"), VStr("mqtt"), VStr("wamp"), VStr("bogus"), VI64(1)}, "scheme")},
-					KV{"ppt_serializer", pick(t, []V{VStr("json"), VStr("cbor"), VStr("native"), VStr("nope"), VI64(3), VNil(), VList()}, "pser")})
-				args := pick(t, []V{VNil(), VList(), VList(VStr("x")), VList(VBin([]byte{0xff, 0x00})), VList(VI64(1), VI64(2)), VList(VDict())}, "pargs")
-				if pct(t, 50, "pptevent") || len(regs) == 0 {
+					KV{"ppt_serializer", pick(t, []V{VStr("json"), VStr("cbor"), VStr("msgpack"), VStr("native"), VStr("nope"), VI64(3), VNil(), VList()}, "pser")})
+				// payload shapes: absent, wrong types, garbage, and well-formed encodings of
+				// the wrong thing (each serializer's null, a scalar, a list, an empty payload)
+				args := pick(t, []V{VNil(), VList(), VList(VStr("x")), VList(VBin([]byte{0xff, 0x00})), VList(VI64(1), VI64(2)), VList(VDict()),
+					VList(VBin([]byte("null"))), VList(VBin([]byte{0xf6})), VList(VBin([]byte{0xc0})), VList(VStr("null")),
+					VList(VBin([]byte("7"))), VList(VBin([]byte("[1,2]"))), VList(VBin([]byte("{}"))), VList(VBin([]byte{0xa0})), VList(VBin([]byte{0x80})),
+					VList(VBin([]byte(`{"args":[1],"kwargs":{"k":2}}`))), VList(VBin([]byte(`{"args":7,"kwargs":[]}`)))}, "pargs")
+				if pct(t, 25, "pptresult") {
+					// as the RESULT of one of the client's own calls
+					op.Msg = &RawMsg{Type: 50, Fields: []V{VID(uint64(1 + uni(t, ordinal+2, "pptreq"))), details, args}}
+				} else if pct(t, 50, "pptevent") || len(regs) == 0 {
 					op.Msg = &RawMsg{Type: 36, Fields: []V{VID(uint64(idOf(sub))), VID(5), details, args}}
 				} else {
 					invID++
@@ -274,7 +282,7 @@ func genClientCase(t *rapid.T, hostile bool) *Case {
 			}
 			c.Ops = append(c.Ops, op)
 		}
-		c.P["features"] = VStr(pick(t, []string{"full", "full", "noppt", "none"}, "features"))
+		c.P["features"] = VStr(pick(t, []string{"full", "full", "basic", "noppt", "none"}, "features"))
 		// goroutines that close the client at some point, then keep using it
 		ncl := pick(t, []int{0, 0, 1, 1, 2}, "closers")
 		for k := 0; k < ncl; k++ {
@@ -468,9 +476,18 @@ func (r *rig) routerSendLocked(m wamp.Message) bool {
 	if r.routerEndClosed {
 		return false
 	}
+	// rendered before the hand-over: over an in-process link the receiver owns the
+	// message from then on and may rewrite it (the client unpacks pass-through
+	// payloads in place)
+	var line string
+	if r.keep {
+		line = MsgString(m)
+	}
 	select {
 	case r.rp.Send() <- m:
-		r.tr("router -> %s", MsgString(m))
+		if r.keep {
+			r.tr("router -> %s", line)
+		}
 		return true
 	case <-r.routerDone:
 		return false
@@ -699,6 +716,17 @@ func (r *rig) routerLoop() {
 			case "result":
 				r.routerSend(&wamp.Result{Request: req, Details: wamp.Dict{}, Arguments: wamp.List{ord, "final"}})
 				r.routerSend(&wamp.Error{Type: wamp.CALL, Request: req, Details: wamp.Dict{}, Error: wamp.ErrCanceled})
+			case "stream":
+				// kill mode with a callee that ignores the INTERRUPT: no answer to the CANCEL,
+				// progressive results keep coming, more often than once per response timeout
+				if np := int(optInt(op, "progress")); np > 0 {
+					for i := 1; i <= 6; i++ {
+						seq := np + i
+						r.later(time.Duration(i)*rigRT/2, func() {
+							r.routerSend(&wamp.Result{Request: req, Details: wamp.Dict{"progress": true}, Arguments: wamp.List{ord, seq}})
+						})
+					}
+				}
 			}
 		case *wamp.Yield:
 			if p, _ := x.Options["progress"].(bool); !p {
@@ -793,8 +821,13 @@ func execClientRig(c *Case, trace bool, prop string) Verdict {
 	default:
 		return Verdict{Kind: "inconclusive", Reason: "no HELLO"}
 	}
-	feat := wamp.Dict{"features": wamp.Dict{"payload_passthru_mode": true, "call_canceling": true, "progressive_call_results": true, "progressive_call_invocations": true}}
+	// what the nexus router itself announces
+	feat := wamp.Dict{"features": wamp.Dict{"payload_passthru_mode": true, "call_canceling": true, "call_timeout": true, "caller_identification": true, "pattern_based_registration": true,
+		"progressive_call_results": true, "progressive_call_invocations": true, "shared_registration": true, "session_meta_api": true,
+		"pattern_based_subscription": true, "publisher_exclusion": true, "publisher_identification": true, "subscriber_blackwhite_listing": true, "event_history": true}}
 	switch c.P["features"].S {
+	case "basic":
+		feat = wamp.Dict{"features": wamp.Dict{"payload_passthru_mode": true, "call_canceling": true, "progressive_call_results": true, "progressive_call_invocations": true}}
 	case "noppt": // pass-through fields from a router that never announced the feature
 		feat = wamp.Dict{"features": wamp.Dict{"call_canceling": true, "progressive_call_results": true}}
 	case "none":
@@ -1541,7 +1574,14 @@ func (r *rig) judge() string {
 					ctxErr = context.Canceled
 				}
 				cr := optStr(op, "cancelreply", "error")
-				if cr == "none" {
+				if cr == "none" || cr == "stream" {
+					// the wait for the answer to CANCEL is bounded by the response timeout, whatever
+					// else arrives for the request meanwhile
+					if d := res.end - res.start; d > ctxNs+rigRT {
+						return fmt.Sprintf("Call#%d: cancelled at %v, CANCEL unanswered: returned only after %v, later than one response timeout (%v) after the cancellation", ord, ctxNs, d, rigRT)
+					}
+				}
+				if cr == "none" || cr == "stream" {
 					if !errors.Is(res.err, ctxErr) && !errors.Is(res.err, client.ErrReplyTimeout) {
 						return fmt.Sprintf("Call#%d: cancelled, CANCEL unanswered: returned %v (expected the context's error or ErrReplyTimeout)", ord, res.err)
 					}
